@@ -5,8 +5,8 @@ from ..extra_c08 import extra_run
 globals().update(
     make(
         pid="C08",
-        props=["JaqalProofs/Props/C08.lean", "JaqalProofs/Lemmas/WalkSerialize.lean"],
-        targets=["JaqalProofs.Props.C08", "JaqalProofs.Lemmas.WalkSerialize"],
+        props=["JaqalProofs/Props/C08.lean", "JaqalProofs/Props/C08Run.lean", "JaqalProofs/Lemmas/WalkSerialize.lean"],
+        targets=["JaqalProofs.Props.C08", "JaqalProofs.Props.C08Run", "JaqalProofs.Lemmas.WalkSerialize"],
         diffs=[("harness.agents.walk_diff", 1500, 10000), ("harness.agents.c08_history", 600, 600)],
         extra_run=extra_run,
         trusted=[
